@@ -172,6 +172,7 @@ inductive Outcome where
   | readiness                -- `ReadinessError`: some input is `NOT_DATA`
   | notIterable              -- `TypeError` of `zip(outputs, result)` for a non-iterable result
   | runError                 -- the transformer body raised (KeyError / AttributeError / ValueError / TypeError)
+  | typeError                -- python refused the call `f(**inputs)` itself (a positional-only parameter by keyword …)
   deriving Repr
 
 structure Node where
@@ -499,6 +500,7 @@ inductive DefErr where
   | countMismatch     -- ValueError of `_validate_return_count`
   | presence          -- TypeError of `_validate_return_count` (labels without returned values)
   | hintCount         -- ValueError: number of tuple hints ≠ number of labels
+  | variadic          -- (repaired tree only) a `*args` / `**kwargs` parameter under whatever name
   deriving Repr, DecidableEq
 
 /-- one entry of `preview_inputs()`: label ↦ (hint, default) -/
